@@ -2,3 +2,4 @@
 #![allow(dead_code, unused_imports, clippy::all)]
 pub mod common;
 mod h_nextafter;
+mod h_cf;
